@@ -211,7 +211,7 @@ Qed.
 Theorem lxml_builds_all n : lxml_builds n.
 Proof.
   induction n as [t|ds q ats ks IH] using snode_ind2; intros e c d dst stk root Hwf Hld Hd Hs.
-  - cbn [sn_wf] in Hwf. destruct Hwf as [Hne [Hx _]].
+  - cbn [sn_wf] in Hwf. destruct Hwf as [Hne Hx].
     cbn [sflat lsteps lstep itree_of lst l_stack].
     destruct Hs as [Hs|[_ []]]. destruct stk as [|f stk]; [contradiction|].
     unfold l_text_ok. rewrite Hx. cbn [l_add_kid l_stack add_kid_l]. reflexivity.
